@@ -33,6 +33,12 @@ def scenarios(ctx):
                                                    members=[dict(topics=["t"], assignors=["range"]), dict(topics=["t"], assignors=["range"], start=0.2)],
                                                    **tail), [{"r": 1}] if quick else [{"r": 1}, {"f": 1}, {"p": 1}]))
     out.append(("batch-polls",gc.two_members(errs=e, poll_max_records=None, feed=[0.2, 8], **tail), Q))
+    # a consumer without a group that subscribes by topic (it assigns itself every partition): the partition count grows, the
+    # new assignment must get positions and every record must still be delivered
+    out.append(("groupless-subscribe-growth", gc.two_members(errs={}, fault_apis=["Fetch", "ListOffsets", "Metadata"], kill=False, coord_move=False,
+                                                             topics={"t": 1}, grow_at=[1.0, "t", 3], metadata_max_age_ms=400, feed=[0.3, 8],
+                                                             members=[dict(group=False, topics=["t"])], faults=["drop-before", "drop-after"],
+                                                             **dict(tail, h_conv=7.0)), [{"r": 1}, {"f": 1}]))
     # a member killed between any two loop iterations (not only when every task is waiting)
     out.append(("kill-mid-cascade", gc.two_members(errs=e, k_mid=True, coord_move=False, explore_until=1.8 if quick else 2.6, **tail), [{"k": 1}]))
     if not quick:
